@@ -133,7 +133,11 @@ func worldShape(w *World) uint64 {
 // applyAdmin executes one administrative op on a router; returns the recovered
 // panic (nil if none).
 func applyAdmin(e *Env, r *mux.Router[*Comp], op *Op) (pan any) {
-	defer func() { pan = recover() }()
+	defer func() {
+		pan = recover()
+		simrt.SetYieldBudget(0)
+	}()
+	simrt.SetYieldBudget(requestBudget)
 	switch op.K {
 	case "handle", "badhandle":
 		h := e.Handler(op.HID, op.Script)
